@@ -85,7 +85,7 @@ def run(ctx, pid, kinds, n_quick, n_thorough, polite=60, extra_assumptions=()):
         r = results[i]
         sc = dict(r["scenario"], choices=r.get("choices", []))
         return {"scenario": sc, "scenarios": [sc], "windows": win_names(wcodes[i]) if i < len(wcodes) else [],
-                "events_tail": r["events"][-60:], "n_events": len(r["events"])}
+                "events_tail": (r.get("events") or [])[-60:], "n_events": len(r.get("events") or [])}
 
     if unexplained:
         i = unexplained[0]
@@ -110,7 +110,7 @@ def run(ctx, pid, kinds, n_quick, n_thorough, polite=60, extra_assumptions=()):
                       "implementation left the Sup model on %d histories (correspondence corr_Sup broken) but the %s monitor found no failing history outside the known windows"
                       % (len(rejected), pid), no_input=True)
     # ---- evidence
-    nontriv = [r for r in results if len(r.get("events", [])) >= 30]
+    nontriv = [r for r in results if len(r.get("events") or []) >= 30]
     distinct = len({json.dumps(r["scenario"]["procs"], sort_keys=True) + json.dumps(r.get("choices")) for r in nontriv})
     sample = []
     for r in results[:400]:
